@@ -13,16 +13,16 @@ import (
 )
 
 func init() {
-	vRegister("vC12_time1", vC12_time1)
-	vRegister("vC12_time2", vC12_time2)
-	vRegister("vC12_time3", vC12_time3)
-	vRegister("vC12_time4", vC12_time4)
-	vRegister("vC12_time5", vC12_time5)
-	vRegister("vC12_time6", vC12_time6)
+	vRegister("vC12_timeInit", vC12_timeInit)
+	vRegister("vC12_timeStep", vC12_timeStep)
+	vRegister("vC12_timeHistory2", vC12_timeHistory2)
+	vRegister("vC12_timeHistory3", vC12_timeHistory3)
 	vRegister("vC12_race", vC12_race)
-	vRegister("vC12_count4", vC12_count4)
-	vRegister("vC12_count5", vC12_count5)
-	vRegister("vC12_count6", vC12_count6)
+	vRegister("vC12_countInit", vC12_countInit)
+	vRegister("vC12_countStep", vC12_countStep)
+	vRegister("vC12_countHistory3", vC12_countHistory3)
+	vRegister("vC12_countHistory4", vC12_countHistory4)
+	vRegister("vC12_countReregister", vC12_countReregister)
 	vRegister("vC12_longlived", vC12_longlived)
 }
 
@@ -53,17 +53,22 @@ func (s *vC12Stream) Publish(topic string, msg any) {
 	}
 }
 
-// ---- ghost state
+const vC12Slack = int64(100 * time.Millisecond) // the documented activity-coalescing slack (passivationTouchInterval)
+
+// ---- ghost state (what an observer of the actor knows)
 var (
 	vC12_T           int64 // configured timeout (time-based)
 	vC12_N           int   // configured message count (count-based)
 	vC12_lastHandled int64 // clock reading stamped on the latest handled message (0 = none)
-	vC12_registered  int64 // clock reading when the actor was started
-	vC12_sinceReg    int   // user messages handled since the latest registration with the manager
-	vC12_paused      bool
+	vC12_started     int64 // clock reading when the actor was started
+	vC12_sinceReg    int   // messages handled since the latest registration with the manager (PostStart included)
+	vC12_postStart   int   // 1 when PostStart is one of them
+	vC12_paused      bool  // PausePassivation / suspend seen, no ResumePassivation / reinstate since
 	vC12_suspended   bool
+	vC12_stopping    bool
 	vC12_stops       int
-	vC12_kind        int // 0 time-based, 1 count-based, 2 long-lived
+	vC12_kind        int  // 0 time-based, 1 count-based, 2 long-lived
+	vC12_known       bool // exclude the known re-registration scenario (it has its own entry)
 )
 
 // substituted for (*PID).doStop (which needs a whole actor system): records the stop and leaves the PID as doStop does.
@@ -75,14 +80,15 @@ func vC12_doStop(pid *PID, ctx context.Context) error {
 	vAssert(vC12_kind != 2, "a long-lived actor is never passivated")
 	vAssert(!vC12_paused, "an actor is not passivated while passivation is paused")
 	vAssert(!vC12_suspended, "an actor is not passivated while suspended")
+	vAssert(!vC12_stopping, "an actor is not passivated while stopping")
 	if vC12_kind == 0 {
 		if vC12_lastHandled != 0 {
-			vAssert(tp-vC12_lastHandled >= vC12_T-int64(100*time.Millisecond), "time-based: no message was handled within the last T (minus the 100ms coalescing slack)")
+			vAssert(tp-vC12_lastHandled >= vC12_T-vC12Slack, "time-based: no message was handled within the last T (minus the 100ms coalescing slack)")
 		}
-		vAssert(tp-vC12_registered >= vC12_T, "time-based: not passivated earlier than T after it was started")
+		vAssert(tp-vC12_started >= vC12_T, "time-based: not passivated earlier than T after it was started")
 	}
 	if vC12_kind == 1 {
-		vAssert(vC12_sinceReg >= vC12_N, "count-based: at least N user messages were handled since registration")
+		vAssert(vC12_sinceReg-vC12_postStart >= vC12_N, "count-based: at least N user messages were handled since registration")
 	}
 	pid.setState(runningState, false)
 	pid.reset()
@@ -101,23 +107,22 @@ func vC12_newPID(strategy passivation.Strategy) (*PID, *passivationManager, *vC1
 	bs.Push(pid.actor.Receive)
 	pid.behaviorStack = bs
 	pid.setState(runningState, true)
-	vC12_lastHandled, vC12_sinceReg, vC12_paused, vC12_suspended, vC12_stops = 0, 0, false, false, 0
+	vC12_lastHandled, vC12_sinceReg, vC12_postStart = 0, 0, 0
+	vC12_paused, vC12_suspended, vC12_stopping, vC12_stops, vC12_known = false, false, false, 0, false
 	t0 := time.Now()
-	vAssume(t0.UnixNano() > 0)
-	vC12_registered = t0.UnixNano()
+	vAssume(t0.UnixNano() >= vC12Slack) // wall clock: far beyond 100ms after the epoch
+	vC12_started = t0.UnixNano()
 	pid.startPassivation() // as newPID does
 	return pid, m, es
 }
 
 // what handleReceived does around the user's behavior for one message taken in a turn that started at `now`
-func vC12_handle(pid *PID, user bool) {
+func vC12_handle(pid *PID) {
 	now := time.Now()
 	pid.markActivity(now)
 	pid.recordProcessedMessage()
 	vC12_lastHandled = now.UnixNano()
-	if user {
-		vC12_sinceReg++
-	}
+	vC12_sinceReg++
 }
 
 // one iteration of the manager's run loop that found a time-based entry (the deadline test is trigger's own)
@@ -136,32 +141,44 @@ func vC12_drain(m *passivationManager) {
 	}
 }
 
+// observer's bookkeeping for resumePassivation
+func vC12_onResume(m *passivationManager) {
+	if !vC12_paused && vC12_kind == 1 {
+		// not paused: resumePassivation registers the strategy afresh
+		if vC12_known {
+			vAssume(len(m.messageTriggers) == 0) // known finding C12-2 (see vC12_countReregister)
+		}
+		vC12_sinceReg, vC12_postStart = 0, 0
+		vCover("re-registered")
+	}
+	vC12_paused = false
+}
+
 // 0 message handled, 1 PausePassivation, 2 ResumePassivation, 3 suspend, 4 reinstate, 5 manager wakes (timer/trigger)
 func vC12_event(pid *PID, m *passivationManager) {
 	switch vChoose("event", 6) {
 	case 0:
-		vC12_handle(pid, true)
+		vC12_handle(pid)
 		vCover("handled")
 	case 1:
 		pid.pausePassivation() // dispatchOne on *PausePassivation
 		vC12_paused = true
 		vCover("paused")
 	case 2:
-		wasPaused := vC12_paused
+		vC12_onResume(m)
 		pid.resumePassivation() // dispatchOne on *ResumePassivation
-		vC12_paused = false
-		if !wasPaused && vC12_kind == 1 {
-			vC12_sinceReg = 0 // not paused: resumePassivation registers the strategy afresh
-		}
 		vCover("resumed")
 	case 3:
 		pid.suspend("failure")
 		vC12_suspended, vC12_paused = true, true
 		vCover("suspended")
 	case 4:
+		// doReinstate returns at once unless the actor is suspended (or stopping; reinstating a stopping actor that is not
+		// suspended is not part of the event alphabet)
+		vAssume(vC12_suspended || !vC12_stopping)
 		if vC12_suspended {
+			vC12_onResume(m) // doReinstate resumes passivation
 			vCover("reinstated")
-			vC12_paused = false // doReinstate resumes passivation
 		}
 		pid.doReinstate()
 		vC12_suspended = false
@@ -186,12 +203,104 @@ func vC12_after(pid *PID, m *passivationManager, es *vC12Stream) {
 	}
 }
 
-func vC12_time(K int) {
+// ---------------------------------------------------------------- time-based
+
+func vC12_bit(b bool, s pidState) uint32 {
+	if b {
+		return uint32(s)
+	}
+	return 0
+}
+
+// the invariant linking the observer's view, the PID and the manager's entry (time-based); `now` = a clock reading
+func vC12_timeInv(pid *PID, m *passivationManager, now int64) bool {
+	L, P := pid.latestReceiveTimeNano.Load(), pid.lastPassivationTouch.Load()
+	// activity stamps: never in the future, the coalesced stamp lags the latest one by less than the slack
+	if !(L <= now && ((L == 0 && P == 0) || (P > 0 && P <= L && L-P < vC12Slack))) {
+		return false
+	}
+	if !(vC12_lastHandled <= L && (L == 0 || L >= vC12_started) && vC12_started <= now) {
+		return false
+	}
+	// flags mirror what happened
+	if pid.isStateSet(passivationPausedState) != vC12_paused || pid.isStateSet(suspendedState) != vC12_suspended ||
+		pid.isStateSet(stoppingState) != vC12_stopping || !pid.isStateSet(runningState) {
+		return false
+	}
+	e, ok := m.entries[pid.ID()]
+	if !ok {
+		return len(m.entries) == 0 && len(m.queue) == 0
+	}
+	if len(m.entries) != 1 || e.target != passivationParticipant(pid) || e.id != pid.ID() || int64(e.timeout) != vC12_T {
+		return false
+	}
+	if _, isTime := e.strategy.(*passivation.TimeBasedStrategy); !isTime {
+		return false
+	}
+	if e.index == -1 {
+		return len(m.queue) == 0
+	}
+	// queued: never while paused, and the deadline is a full timeout after the coalesced activity stamp and after the start
+	d := e.deadline.UnixNano()
+	return e.index == 0 && len(m.queue) == 1 && m.queue[0] == e && !e.paused && d >= P+vC12_T && d >= vC12_started+vC12_T
+}
+
+func vC12_timeSetup() (*PID, *passivationManager, *vC12Stream) {
 	vC12_kind = 0
 	T := vNondetInt64("timeout")
 	vAssume(T > 0 && T < 1<<40)
 	vC12_T = T
-	pid, m, es := vC12_newPID(passivation.NewTimeBasedStrategy(time.Duration(T)))
+	return vC12_newPID(passivation.NewTimeBasedStrategy(time.Duration(T)))
+}
+
+func vC12_timeInit() {
+	pid, m, _ := vC12_timeSetup()
+	vAssert(vC12_timeInv(pid, m, time.Now().UnixNano()), "time-based: the invariant holds for a freshly started actor")
+	vAssert(len(m.queue) == 1, "a freshly started time-based actor is scheduled")
+	vCover("end")
+}
+
+// one event from an arbitrary state satisfying the invariant
+func vC12_timeStep() {
+	pid, m, es := vC12_timeSetup()
+	e := m.entries[pid.ID()]
+	// arbitrary observer history
+	vC12_paused, vC12_suspended, vC12_stopping = vNondetBool("paused"), vNondetBool("suspended"), vNondetBool("stopping")
+	vC12_lastHandled = vNondetInt64("lastHandled")
+	vAssume(vC12_lastHandled >= 0)
+	// arbitrary PID state
+	pid.state.Store(uint32(runningState) | vC12_bit(vC12_paused, passivationPausedState) | vC12_bit(vC12_suspended, suspendedState) |
+		vC12_bit(vC12_stopping, stoppingState) | vC12_bit(vNondetBool("skipNext"), passivationSkipNextState))
+	pid.latestReceiveTimeNano.Store(vNondetInt64("latest"))
+	pid.lastPassivationTouch.Store(vNondetInt64("lastTouch"))
+	// arbitrary manager state for this actor
+	e.paused = vNondetBool("entryPaused")
+	e.deadline = time.Unix(0, vNondetInt64("deadline"))
+	switch vChoose("entry", 3) {
+	case 0: // unknown to the manager
+		delete(m.entries, pid.ID())
+		m.queue = m.queue[:0]
+		e.index = -1
+		vCover("pre-unregistered")
+	case 1: // registered, not queued
+		m.queue = m.queue[:0]
+		e.index = -1
+		vCover("pre-unqueued")
+	default:
+		vCover("pre-queued")
+	}
+	now := time.Now().UnixNano()
+	vAssume(vC12_timeInv(pid, m, now))
+	vC12_event(pid, m)
+	if vC12_stops == 0 {
+		vAssert(vC12_timeInv(pid, m, time.Now().UnixNano()), "time-based: every event preserves the invariant")
+	}
+	vC12_after(pid, m, es)
+	vCover("end")
+}
+
+func vC12_timeHistory(K int) {
+	pid, m, es := vC12_timeSetup()
 	for k := 0; k < K; k++ {
 		if vC12_stops == 0 { // a passivated actor is dead: the history ends there
 			vC12_event(pid, m)
@@ -201,45 +310,120 @@ func vC12_time(K int) {
 	vCover("end")
 }
 
-func vC12_time1() { vC12_time(1) }
-func vC12_time2() { vC12_time(2) }
-func vC12_time3() { vC12_time(3) }
-func vC12_time4() { vC12_time(4) }
-func vC12_time5() { vC12_time(5) }
-func vC12_time6() { vC12_time(6) }
+func vC12_timeHistory2() { vC12_timeHistory(2) }
+func vC12_timeHistory3() { vC12_timeHistory(3) }
 
 // the window between trigger's deadline test (under the manager's lock) and tryPassivation: a message may be handled there.
 // The manager's own passivateFn hook is used to place the message; the hook then does what passivate does.
 func vC12_race() {
-	vC12_kind = 0
-	T := vNondetInt64("timeout")
-	vAssume(T > int64(time.Second) && T < 1<<40)
-	vC12_T = T
-	pid, m, es := vC12_newPID(passivation.NewTimeBasedStrategy(time.Duration(T)))
+	pid, m, es := vC12_timeSetup()
+	vAssume(vC12_T > int64(time.Second))
 	m.passivateFn = func(e *passivationEntry) bool {
 		if vNondetBool("messageInTheWindow") {
-			vC12_handle(pid, true)
+			vC12_handle(pid)
 			vCover("message-in-window")
 		}
 		return e.target.passivationTry(passivationReason(e))
 	}
 	if vNondetBool("earlierMessage") {
-		vC12_handle(pid, true)
+		vC12_handle(pid)
 	}
 	vC12_wake(m)
 	vC12_after(pid, m, es)
 	vCover("end")
 }
 
-func vC12_count(K int) {
+// ---------------------------------------------------------------- count-based
+
+func vC12_countInv(pid *PID, m *passivationManager) bool {
+	if pid.isStateSet(passivationPausedState) != vC12_paused || pid.isStateSet(suspendedState) != vC12_suspended ||
+		pid.isStateSet(stoppingState) != vC12_stopping || !pid.isStateSet(runningState) {
+		return false
+	}
+	if !(vC12_postStart >= 0 && vC12_postStart <= 1 && vC12_postStart <= vC12_sinceReg) || len(m.queue) != 0 {
+		return false
+	}
+	e, ok := m.entries[pid.ID()]
+	if !ok {
+		return len(m.entries) == 0 && len(m.messageTriggers) == 0
+	}
+	if len(m.entries) != 1 || e.target != passivationParticipant(pid) || e.id != pid.ID() || e.maxMessages != vC12_N || e.index != -1 {
+		return false
+	}
+	if _, isCount := e.strategy.(*passivation.MessagesCountBasedStrategy); !isCount {
+		return false
+	}
+	C := pid.processedCount.Load()
+	// the manager's baseline counts from the registration; a raised trigger means the threshold was reached
+	if int64(vC12_sinceReg) != C-e.baseline+1 || e.paused != vC12_paused {
+		return false
+	}
+	if e.pending && C < e.baseline+int64(vC12_N) {
+		return false
+	}
+	queued := len(m.messageTriggers) == 1
+	return len(m.messageTriggers) <= 1 && queued == e.enqueued && (!queued || e.pending)
+}
+
+func vC12_countSetup() (*PID, *passivationManager, *vC12Stream) {
 	vC12_kind = 1
 	N := vNondetInt("maxMessages")
-	vAssume(N >= 1 && N <= 3)
+	vAssume(N >= 1 && N <= 1<<30)
 	vC12_N = N
-	pid, m, es := vC12_newPID(passivation.NewMessageCountBasedStrategy(N))
-	vC12_handle(pid, false) // PostStart, fired by newPID right after registration, is counted as a processed message
+	return vC12_newPID(passivation.NewMessageCountBasedStrategy(N))
+}
+
+func vC12_countInit() {
+	pid, m, _ := vC12_countSetup()
+	vAssert(vC12_countInv(pid, m), "count-based: the invariant holds for a freshly started actor")
+	vC12_handle(pid) // PostStart, fired by newPID right after registration, is counted as a processed message
+	vC12_postStart = 1
+	vAssert(vC12_countInv(pid, m), "count-based: the invariant holds after PostStart")
+	vAssert(len(m.messageTriggers) == 0, "PostStart alone never raises the trigger")
+	vCover("end")
+}
+
+func vC12_countStep() {
+	pid, m, es := vC12_countSetup()
+	e := m.entries[pid.ID()]
+	vC12_paused, vC12_suspended, vC12_stopping = vNondetBool("paused"), vNondetBool("suspended"), vNondetBool("stopping")
+	vC12_sinceReg, vC12_postStart = vNondetInt("sinceReg"), vNondetInt("postStart")
+	vAssume(vC12_sinceReg >= 0 && vC12_sinceReg < 1<<40)
+	pid.state.Store(uint32(runningState) | vC12_bit(vC12_paused, passivationPausedState) | vC12_bit(vC12_suspended, suspendedState) |
+		vC12_bit(vC12_stopping, stoppingState) | vC12_bit(vNondetBool("skipNext"), passivationSkipNextState))
+	C := vNondetInt64("processed")
+	vAssume(C >= 0 && C < 1<<40)
+	pid.processedCount.Store(C)
+	e.baseline = vNondetInt64("baseline")
+	e.paused, e.pending, e.enqueued = vNondetBool("entryPaused"), vNondetBool("pending"), vNondetBool("enqueued")
+	switch vChoose("entry", 3) {
+	case 0:
+		delete(m.entries, pid.ID())
+		vCover("pre-unregistered")
+	case 1:
+		m.messageTriggers <- e
+		vCover("pre-trigger-queued")
+	default:
+		vCover("pre-registered")
+	}
+	vC12_known = true
+	vAssume(vC12_countInv(pid, m))
+	vC12_event(pid, m)
+	if vC12_stops == 0 {
+		vAssert(vC12_countInv(pid, m), "count-based: every event preserves the invariant")
+	}
+	vC12_after(pid, m, es)
+	vCover("end")
+}
+
+func vC12_countHistory(K int) {
+	pid, m, es := vC12_countSetup()
+	vAssume(vC12_N <= 2)
+	vC12_handle(pid) // PostStart
+	vC12_postStart = 1
+	vC12_known = true
 	for k := 0; k < K; k++ {
-		if vC12_stops == 0 { // a passivated actor is dead: the history ends there
+		if vC12_stops == 0 {
 			vC12_event(pid, m)
 		}
 	}
@@ -247,9 +431,30 @@ func vC12_count(K int) {
 	vCover("end")
 }
 
-func vC12_count4() { vC12_count(4) }
-func vC12_count5() { vC12_count(5) }
-func vC12_count6() { vC12_count(6) }
+func vC12_countHistory3() { vC12_countHistory(3) }
+func vC12_countHistory4() { vC12_countHistory(4) }
+
+// the scenario excluded above: the threshold is reached (trigger queued), then a ResumePassivation reaches the actor while it
+// is not paused (this registers the strategy afresh: baseline reset), then the manager serves the stale trigger
+func vC12_countReregister() {
+	pid, m, es := vC12_countSetup()
+	vAssume(vC12_N <= 2)
+	vC12_handle(pid) // PostStart
+	vC12_postStart = 1
+	for k := 0; k < 2; k++ {
+		if len(m.messageTriggers) == 0 {
+			vC12_handle(pid)
+		}
+	}
+	vAssume(len(m.messageTriggers) == 1)
+	vC12_sinceReg, vC12_postStart = 0, 0
+	pid.resumePassivation()
+	vC12_drain(m)
+	vC12_after(pid, m, es)
+	vCover("end")
+}
+
+// ---------------------------------------------------------------- long-lived
 
 func vC12_longlived() {
 	vC12_kind = 2
